@@ -21,8 +21,9 @@ CONSTANT MaxOps
 
 Flushable == BOOLEAN
 LastIDs   == {"absent", "empty", "ok", "multiline"}
-\* no topics: nil; empty: a non-nil empty list; one / two topics
-OnSession == {"unset", "reject", "accept-no-topics", "accept-empty-topics", "accept-one-topic", "accept-topics"}
+\* no topics: nil; empty: a non-nil empty list; one / two topics; a named topic together with DefaultTopic (the empty string is a
+\* topic like any other once OnSession has chosen it)
+OnSession == {"unset", "reject", "accept-no-topics", "accept-empty-topics", "accept-one-topic", "accept-topics", "accept-named-and-default"}
 Provider  == {"nil", "err", "errcanceled"}   \* errcanceled: the provider refuses with an error that wraps context.Canceled (its own
                                              \* backend gave up) while the request is alive: a refusal like any other
 
@@ -38,13 +39,14 @@ Expected(c) ==
          lidset |-> c.lid = "ok",                                            \* unset when absent, empty or invalid
          topics |-> CASE c.onsession = "accept-topics" -> "given2"
                       [] c.onsession = "accept-one-topic" -> "given1"
+                      [] c.onsession = "accept-named-and-default" -> "named+default"
                       [] OTHER -> "default",
          status |-> IF c.provider # "nil" THEN 500 ELSE 200,                  \* refused before anything was sent
          wrote |-> IF c.provider # "nil" THEN "error" ELSE "nothing"]
 
 \* Server.Publish(msg, topics...): the provider is given the topics, DefaultTopic if none
-PubTopics == {"none", "one", "two"}
-PubExpected(t) == IF t = "none" THEN "default" ELSE IF t = "one" THEN "given1" ELSE "given2"
+PubTopics == {"none", "one", "two", "named+default"}
+PubExpected(t) == IF t = "none" THEN "default" ELSE IF t = "one" THEN "given1" ELSE IF t = "two" THEN "given2" ELSE "named+default"
 
 Ops == [op : {"request"}, c : Cases, t : {"none"}] \cup [op : {"publish"}, c : {CHOOSE c \in Cases : TRUE}, t : PubTopics]
 
